@@ -423,7 +423,8 @@ pub fn orchestrate(harness_name: &str, property: &str, args: &Args, extra_args: 
 			.env("VERIF_SEED", args.seed.to_string())
 			.stdin(Stdio::null())
 			.stdout(Stdio::null())
-			.stderr(Stdio::inherit());
+			// the subject may chat on stderr (the CLI's handler does); keep it only when tracing
+			.stderr(if std::env::var("VERIF_TRACE").is_ok() { Stdio::inherit() } else { Stdio::null() });
 		kids.push((c.spawn().expect("spawn worker"), out));
 	}
 	// workers stop by themselves at the budget; give them a margin, then SIGKILL
